@@ -37,7 +37,8 @@ META = {
                   "trees, a real ShelfManager and a real Shelver with scripted answers"),
     "level_text": ("Proved (unbounded): shelf ids -- new id = 1 + max live (1 if none) at any point of any operation "
                    "sequence, live ids stay unique, delete removes exactly one id and renumbers nothing, shelves "
-                   "survive until deleted, and the file-name/regex level refines the id machine. Hunk selection -- "
+                   "survive until deleted, the file-name/regex level refines the id machine, and only whole names "
+                   "shelf-N are shelves (fullmatch, 56cc459). Hunk selection -- "
                    "for every pair of texts, accepted opcode list, context size and answer sequence _select_hunks "
                    "never conflicts and leaves exactly the not-shelved hunks (both diff directions). Tree level -- "
                    "frame, 'removes exactly' per id and field under an executable guard with a machine-checked "
@@ -54,10 +55,11 @@ META = {
                     "merge3 + patiencediff merge edits of disjoint diff segments cleanly (seg_correct; compared on every hunks case)",
                     "Python re.match / int / sorted / %d as modelled by match_shelf / parse_dec / list_max / print_dec",
                     "the sequence matcher's opcodes are an input of the hunk model (checked by valid_opcodes, C39)",
-                    "no unversioned files in the tree; per id, selected changes are applied in iter_shelvable order",
+                    "no unversioned files in the tree (shelve_deletion's existing_path branch is never taken); per id, selected changes are applied in iter_shelvable order",
                     "shelf directory contains only what the test put there"],
-    "rule": ("ids: all subsets (<=3) of a pool of well- and ill-formed names; idops: all operation sequences up to "
-             "length 4 + random longer ones; hunks: texts of 9-18 lines with 1-4 separated edits x all answer "
+    "rule": ("ids: all subsets (<=3) of a pool of well- and ill-formed names (incl. 9/10/11); idops: all operation "
+             "sequences up to length 4 + random longer ones, also starting from 8-13 live shelves; tree cases also with "
+             "an intermediate commit (shelve against the older revision rev-1, unshelve); hunks: texts of 9-18 lines with 1-4 separated edits x all answer "
              "subsets (<=4 hunks); tree: a fixed all-kinds tree x all subsets of its changes + random tree pairs x "
              "random subsets; non-trivial = at least one change shelved / one id allocated"),
 }
